@@ -709,6 +709,14 @@ def c18(tier, seed):
         rep.sample(s)
     for i in range(res["cases"]):
         rep.distinct.add(("stall", i))
+    # the opposite extreme: a writer that never stops (a completed update before every load of one call)
+    resb = seg_json(["busy"], timeout=600)
+    run.take(resb, "reader against a writer that completes an update before every load of the call", "busy")
+    rep.evaluations += len(resb["cases"])
+    rep.traces += len(resb["cases"]) - len(resb["violations"])
+    rep.notes.append(f"busy writer: {[(c['reader'], c['loads_in_one_call'], c['result']) for c in resb['cases']]}")
+    for c in resb["cases"]:
+        rep.distinct.add(("busy", c["reader"]))
     b, r, _, _ = cover(rep, "rp_warm", cf["rp_warm"], wprog, rprog)
     run.replay(b, False, "SC cover rp_warm")
     run.explore(seed, 30 if tier == "quick" else 300, 400, wprog, rprog, crash_pct=10, what="random schedules with stalled/dead writers and spins")
